@@ -1,5 +1,6 @@
 import Demeter.Drv.Json
 import Demeter.Trigger
+import Demeter.Actuator
 namespace Demeter.Drv
 open Demeter Demeter.Core Lean
 
@@ -64,11 +65,116 @@ def trigRunH : JHandler := fun j => do
     ("err", errJ err),
     ("denoted", .arr den.toArray)]
 
+/-! #### the bar loop -/
+
+def iJ (i : Int) : Json := .num (JsonNumber.fromInt i)
+def nJ (n : Nat) : Json := .num (JsonNumber.fromNat n)
+def oJ : Option Int → Json
+  | none => .null
+  | some i => iJ i
+
+def hookJ : Hook → Json
+  | .init => "init" | .before => "before" | .fire i => .str s!"fire:{i}" | .openCb m => .str s!"open:{m}"
+  | .on => "on" | .after => "after"
+
+def evJ : Ev → Json
+  | .set ts m stage o src => .arr #["set", iJ ts, nJ m, nJ stage, .bool o, oJ src]
+  | .initialize ts => .arr #["initialize", iJ ts]
+  | .before ts row p => .arr #["before", iJ ts, nJ row, oJ p]
+  | .fire ts id kw => .arr #["fire", iJ ts, nJ id, .str kw]
+  | .openCb ts m => .arr #["open", iJ ts, nJ m]
+  | .on ts row p => .arr #["on", iJ ts, nJ row, oJ p]
+  | .update ts m => .arr #["update", iJ ts, nJ m]
+  | .uact ts m tag => .arr #["uact", iJ ts, nJ m, .str tag]
+  | .after ts row p => .arr #["after", iJ ts, nJ row, oJ p]
+  | .opOk ts h m tag => .arr #["ok", iJ ts, hookJ h, nJ m, .str tag]
+  | .opRej ts h m tag c => .arr #["rej", iJ ts, hookJ h, nJ m, .str tag, .bool c]
+  | .row ts p => .arr #["row", iJ ts, oJ p]
+  | .notify ts tag stamp m => .arr #["notify", iJ ts, .str tag, iJ stamp, nJ m]
+  | .finalize ts => .arr #["finalize", iJ ts]
+  | .raised e => .arr #["raised", .str e.name]
+
+def natOf (v : Json) : Except String Nat := do
+  let i ← jIntOf v
+  if i < 0 then throw "negative" else pure i.toNat
+
+def opOf (v : Json) : Except String OpSpec :=
+  match v with
+  | .arr #[m, .bool ok, .str tag] => do pure ⟨← natOf m, ok, tag⟩
+  | _ => throw s!"bad op {v.compress}"
+
+def opsOf (v : Json) : Except String (List OpSpec) :=
+  match v with
+  | .arr a => a.toList.mapM opOf
+  | _ => throw "ops: expected array"
+
+/-- `[[row, ops], …]` -/
+def tbl1 (j : Json) (k : String) : Except String (Nat → List OpSpec) := do
+  match jOpt j k with
+  | none => pure fun _ => []
+  | some (.arr a) =>
+    let l ← a.toList.mapM fun v => match v with
+      | .arr #[r, ops] => do pure (← natOf r, ← opsOf ops)
+      | _ => throw s!"{k}: expected [row, ops]"
+    pure fun r => (l.lookup r).getD []
+  | _ => throw s!"{k}: expected array"
+
+/-- `[[row, id, ops], …]` -/
+def tbl2 (j : Json) (k : String) : Except String (Nat → Nat → List OpSpec) := do
+  match jOpt j k with
+  | none => pure fun _ _ => []
+  | some (.arr a) =>
+    let l ← a.toList.mapM fun v => match v with
+      | .arr #[r, i, ops] => do pure ((← natOf r, ← natOf i), ← opsOf ops)
+      | _ => throw s!"{k}: expected [row, id, ops]"
+    pure fun r i => (l.lookup (r, i)).getD []
+  | _ => throw s!"{k}: expected array"
+
+def tblU (j : Json) (k : String) : Except String (Nat → Nat → List String) := do
+  match jOpt j k with
+  | none => pure fun _ _ => []
+  | some (.arr a) =>
+    let l ← a.toList.mapM fun v => match v with
+      | .arr #[r, i, .arr tags] => do
+        let ts ← tags.toList.mapM fun t => match t with
+          | .str s => pure s
+          | _ => throw "tag: expected string"
+        pure ((← natOf r, ← natOf i), ts)
+      | _ => throw s!"{k}: expected [row, market, tags]"
+    pure fun r i => (l.lookup (r, i)).getD []
+  | _ => throw s!"{k}: expected array"
+
+def parseCfg (j : Json) : Except String Cfg := do
+  let ms ← jArr j "markets"
+  let markets ← ms.toList.mapM fun m => do pure (⟨← jIntArr m "idx", ← jBool m "open"⟩ : MarketCfg)
+  pure ⟨markets, ← jIntArr j "prices", ← jInt j "delta", ← jBool j "resample"⟩
+
+def runH : JHandler := fun j => do
+  let cfg ← parseCfg j
+  let specsJ := match jOpt j "specs" with | some (.arr a) => a.toList | _ => []
+  let specs ← specsJ.mapM fun s => do pure (jStrD s "kw" "", ← parseSpec s)
+  let (made, ok) := buildTrigs specs
+  let trigs := install (ok.map fun (kw, _, k) => (kw, k))
+  let scj := (jOpt j "script").getD (Json.mkObj [])
+  let init ← match jOpt scj "init" with | some v => opsOf v | none => pure []
+  let sc : Script := ⟨init, ← tbl1 scj "before", ← tbl2 scj "fire", ← tbl2 scj "open", ← tbl1 scj "on", ← tbl1 scj "after",
+                      ← tblU scj "upd"⟩
+  let r := run cfg trigs sc
+  pure <| Json.mkObj [
+    ("make", .arr made.toArray),
+    ("trace", .arr (r.trace.map evJ).toArray),
+    ("rows", .arr (r.rows.map fun (t, p) => Json.arr #[iJ t, oJ p]).toArray),
+    ("actions", .arr (r.actions.map fun a => Json.arr #[.str a.tag, iJ a.stamp, nJ a.m]).toArray),
+    ("left", .arr (r.trigsLeft.map fun t => nJ t.id).toArray),
+    ("bars", .arr ((barIndex cfg).map iJ).toArray),
+    ("err", errJ r.err)]
+
 end CoreDrv
 
 def coreHandlers : List (String × Handler) := []
 def coreJHandlers : List (String × JHandler) := [
-  ("trig_run", CoreDrv.trigRunH)
+  ("trig_run", CoreDrv.trigRunH),
+  ("run", CoreDrv.runH)
 ]
 
 end Demeter.Drv
